@@ -24,7 +24,7 @@ RULE = (
 )
 ASSUMPTIONS = ["fair stepping: both loops keep iterating until quiescence", "finite-loss plans never fail more than 12 consecutive transmissions of one message"]
 REQUIRED_COUNTERS = ["lossyzmq_histories_checked", "histories", "messages_sent_c2e", "messages_sent_e2c", "messages_sent_c2d", "frames_dropped", "frames_duplicated", "frames_held", "retries_observed",
-                     "histories_partition", "sender_raises_observed", "malformed_probes"]
+                     "histories_partition", "histories_busy", "sender_raises_observed", "malformed_probes"]
 
 CMD_TYPES = ("TaskSequence", "DatasetPurge", "DatasetTransmitCommand")
 EVT_TYPES = ("DatasetPublished", "ExecutorRegistration", "ExecutorFailure", "TaskFailure", "ExecutorExit")
@@ -40,7 +40,7 @@ def one_history(col: Collector, rng, index: int):
     from cascade.low.core import DatasetId, WorkerId
     from vlib import netsim
 
-    plan_class = rng.choice(["none", "loss", "loss", "loss-acks", "dup", "hold", "mixed", "mixed", "partition-c2e", "partition-e2c", "partition-acks"])
+    plan_class = rng.choice(["none", "loss", "loss", "loss-acks", "dup", "hold", "mixed", "mixed", "partition-c2e", "partition-e2c", "partition-acks", "busy-loss"])
     w = netsim.World(rng)
     try:
         net = w.net
@@ -69,7 +69,7 @@ def one_history(col: Collector, rng, index: int):
                     decisions.append("P")
                     return []
                 return [0]
-            lossy = plan_class in ("loss", "mixed") or (plan_class == "loss-acks" and kind == "ack")
+            lossy = plan_class in ("loss", "mixed", "busy-loss") or (plan_class == "loss-acks" and kind == "ack")
             if lossy and r < p_loss and fails.get(ident, 0) < 12:
                 fails[ident] = fails.get(ident, 0) + 1
                 decisions.append("d")
@@ -136,6 +136,37 @@ def one_history(col: Collector, rng, index: int):
                 kinds.append("publish")
                 w.inject_local(DatasetPublished(origin=WorkerId("h0", "w0"), ds=DatasetId(f"e{i}", "0"), transmit_idx=None))
             step_some()
+        if plan_class == "busy-loss":
+            # both inbound links stay busy for longer than the whole retry budget: every 250 virtual ms (less than the resend
+            # grace) each endpoint receives fresh traffic, so no blocking poll of either loop ever times out. Retries must be
+            # driven by the loop, not by an idle poll: at the end of the phase no message may have gone un-retransmitted for a
+            # whole budget while its sender neither raised nor stopped.
+            from cascade.executor.msg import DatasetPublished as DP
+            budget_ns = (comms.max_retries_per_message + 3) * grace_ms * 10**6
+            rounds = int(budget_ns / (250 * 10**6)) + 20
+            for r_ in range(rounds):
+                if w.raised["c2e"] is not None or w.ex.terminating:
+                    break
+                w.inject_local(DP(origin=WorkerId("h0", "w0"), ds=DatasetId(f"busy-e{r_}", "0"), transmit_idx=None))
+                try:
+                    w.bridge.purge("h0", DatasetId(f"busy-c{r_}", "0"))
+                except Exception as e:  # noqa: BLE001
+                    w.raised["c2e"] = (repr(e), w.clock.ns)
+                w.step_executor()
+                w.step_controller()
+                drain_dl()
+                w.clock.ns += 250 * 10**6
+                col.count("busy_rounds")
+            col.count("histories_busy")
+            wit_b = {"plan": plan_class, "p_loss": p_loss, "net_log": net.log[-60:], "stats": dict(net.stats)}
+            for direction, sender, gone in (("controller->executor", w.bridge.sender, w.raised["c2e"] is not None), ("executor->controller", w.ex.sender, w.ex.terminating or w.raised["e2c"] is not None)):
+                stale = [(i, r) for i, r in sender.inflight.items() if w.clock.ns - r.at > budget_ns]
+                if stale and not gone:
+                    i, r = stale[0]
+                    col.violation(f"retry-starved-while-inbound-link-busy:{direction}",
+                                  f"message #{i} ({r.clazz}) was last transmitted {(w.clock.ns - r.at) / 1e9:.0f} virtual s ago (budget {budget_ns / 1e9:.0f} s), retries left {r.remaining}: "
+                                  f"its sender's loop iterated {rounds} times receiving traffic, never re-sent it and never raised", wit_b, index)
+                    return
         # ---- drive to quiescence -----------------------------------------------------------------------
         quiescent = False
         for it in range(600):
